@@ -69,7 +69,7 @@ int disasm_cell(
           break;
         case OP_RT_RA_S10:
           i16 = (opcode >> 14) & 0x3ff;
-          if ((i16 & (1 << 13)) != 0) { i16 |= 0xffffc000; }
+          if ((i16 & (1 << 9)) != 0) { i16 |= 0xfffffc00; }
           snprintf(instruction, length, "%s r%d, r%d, 0x%x (%d)", table_cell[n].instr, rt, ra, i16, i16);
           break;
         case OP_RT_RA_U10:
